@@ -18,8 +18,18 @@ Field(bits) == << [a |-> FALSE, b |-> bits] >>
 AlignPoint == << [a |-> TRUE, b |-> <<>>] >>
 Align(al) == IF al THEN AlignPoint ELSE <<>>
 
+\* the bit string of a field list: the runs between alignment points are
+\* concatenated (divide and conquer), padding is inserted at each alignment point
 Flat(items) ==
-  FoldLeft(LAMBDA acc, it : IF it.a THEN acc \o Zeros((8 - (Len(acc) % 8)) % 8) ELSE acc \o it.b, <<>>, items)
+  LET its == items \o <<>>
+      n == Len(its)
+      marks == SelectSeq([i \in 1..n |-> i], LAMBDA i : its[i].a)
+      k == Len(marks)
+      lo(j) == IF j = 1 THEN 1 ELSE marks[j - 1] + 1
+      hi(j) == IF j = k + 1 THEN n ELSE marks[j] - 1
+      run(j) == CatDC([i \in 1..Max2(0, hi(j) - lo(j) + 1) |-> its[lo(j) + i - 1].b] \o <<>>, 1, Max2(0, hi(j) - lo(j) + 1))
+      pad(bits) == bits \o Zeros((8 - (Len(bits) % 8)) % 8)
+  IN FoldLeft(LAMBDA acc, j : (IF j = 1 THEN acc ELSE pad(acc)) \o run(j), <<>>, [j \in 1..(k + 1) |-> j])
 
 \* 10.1.3: the complete encoding of an outermost value / open type value
 Complete(items) ==
@@ -81,9 +91,11 @@ NormallySmall(n, al) ==
        IN Field(<<1>>) \o WithUnconstrainedLength(al, Len(octs), LAMBDA f, t : Align(al) \o OctetsField(SubSeq(octs, f, t)))
 
 \* 10.9.3.4 normally small length (n >= 1)
-NormallySmallLength(n, al) ==
+\* Deviation DevPerNormallySmallLengthNoAlign: the general length after the 1 bit is not octet-aligned
+NormallySmallLength(n, al, S) ==
   IF n <= 64 THEN Field(<<0>> \o NatToBits(n - 1, 6))
-  ELSE Field(<<1>>) \o Align(al) \o Field(FragPlan(n, 0)[1].h)       \* n < 16K in every supported type
+  ELSE Field(<<1>>) \o (IF "DevPerNormallySmallLengthNoAlign" \in S THEN <<>> ELSE Align(al))
+       \o Field(FragPlan(n, 0)[1].h)       \* n < 16K in every supported type
 
 \* 10.7 semi-constrained, 10.8 unconstrained whole number: length + octets
 SemiConstrained(lb, n, al) ==
@@ -274,7 +286,7 @@ EncSequence(env, T, v, al, S) ==
                    ELSE OpenType(PerEnc(env, a.m.t, v[a.m.n].v, al, S), al, S)
       additions ==
         IF ~anyAdd THEN <<>>
-        ELSE NormallySmallLength(Len(T.adds), al)                                             \* 19.8
+        ELSE NormallySmallLength(Len(T.adds), al, S)                                             \* 19.8
              \o Field([i \in 1..Len(T.adds) |-> IF addPresent(T.adds[i]) THEN 1 ELSE 0])
              \o Concat([i \in 1..Len(T.adds) |-> IF addPresent(T.adds[i]) THEN addEnc(T.adds[i]) ELSE <<>>])
   IN (IF ext THEN Field(<<IF anyAdd THEN 1 ELSE 0>>) ELSE <<>>)                                   \* 19.1
